@@ -28,6 +28,172 @@ func indexPath(p *Path) *pathIndex {
 	return ix
 }
 
+// eventBytes: the constant number of bytes a top-level wire event appends, when it is constant.
+func eventBytes(e *Event) (int64, bool) {
+	switch e.Kind {
+	case EvWriteInt:
+		return fixedSize(e.IntType)
+	case EvWriteBytes:
+		if e.Size != nil {
+			return affOf(e.Size).IsConst()
+		}
+	}
+	return 0, false
+}
+
+// cut resolves "the buffer position c bytes after (before) the observation m" to a boundary between top-level wire
+// events: the returned position is the number of top-level wire events that lie before it. It succeeds only when the
+// bytes between the observation and that boundary are appended by events of constant size that add up to exactly c.
+func (ix *pathIndex) cut(m *Event, c int64) (int, bool) {
+	return ix.cutLim(m, c, len(ix.p.Events))
+}
+
+// cutLim: as cut, using only the events before index lim of the path (what has been written by then).
+func (ix *pathIndex) cutLim(m *Event, c int64, lim int) (int, bool) {
+	if m == nil || m.Kind != EvLen {
+		return 0, false
+	}
+	pos := ix.wirePos[m]
+	mi := eventIndex(ix.p, m)
+	if mi < 0 || mi >= lim {
+		return 0, false
+	}
+	if c == 0 {
+		return pos, true
+	}
+	if c > 0 {
+		for _, e := range ix.p.Events[mi+1 : lim] {
+			if !countsAsWire(e) {
+				continue
+			}
+			if !sameBuf(e.Buf, m.Buf) {
+				return 0, false
+			}
+			n, ok := eventBytes(e)
+			if !ok || n > c {
+				return 0, false
+			}
+			c -= n
+			pos++
+			if c == 0 {
+				return pos, true
+			}
+		}
+		return 0, false
+	}
+	c = -c
+	for i := mi - 1; i >= 0; i-- {
+		e := ix.p.Events[i]
+		if !countsAsWire(e) {
+			continue
+		}
+		if !sameBuf(e.Buf, m.Buf) {
+			return 0, false
+		}
+		n, ok := eventBytes(e)
+		if !ok || n > c {
+			return 0, false
+		}
+		c -= n
+		pos--
+		if c == 0 {
+			return pos, true
+		}
+	}
+	return 0, false
+}
+
+// window: lo and hi are buffer positions (observation + constant) resolved over what was written before event at;
+// returns the boundaries and a lower bound of the number of bytes between them (hi may be nil: the end of what was
+// written before at).
+func (ix *pathIndex) window(lo, hi *Val, at *Event) (pLo, pHi int, bytes int64, m *Event, ok bool) {
+	lim := eventIndex(ix.p, at)
+	if lim < 0 {
+		return
+	}
+	affLo := affOf(stripIntConv(lo))
+	if affLo.Top || len(affLo.Term) != 1 {
+		return
+	}
+	for k, c := range affLo.Term {
+		if c != 1 {
+			return
+		}
+		m = ix.marker(affLo.Sym[k])
+	}
+	var okLo bool
+	pLo, okLo = ix.cutLim(m, affLo.C, lim)
+	if !okLo {
+		return
+	}
+	if hi == nil {
+		pHi = ix.wirePos[at]
+	} else {
+		affHi := affOf(stripIntConv(hi))
+		if affHi.Top || len(affHi.Term) != 1 {
+			return
+		}
+		var mh *Event
+		for k, c := range affHi.Term {
+			if c != 1 {
+				return
+			}
+			mh = ix.marker(affHi.Sym[k])
+		}
+		var okHi bool
+		pHi, okHi = ix.cutLim(mh, affHi.C, lim)
+		if !okHi {
+			// hi = lo + w with w bytes of constant-size events after lo
+			d, isC := affHi.Add(affLo, -1).IsConst()
+			if !isC || d < 0 {
+				return
+			}
+			pHi, okHi = ix.cutLim(m, affLo.C+d, lim)
+			if !okHi {
+				return
+			}
+		}
+		if mh != nil && !sameBuf(mh.Buf, m.Buf) {
+			return
+		}
+	}
+	if pHi < pLo {
+		return
+	}
+	bytes = 0
+	for _, e := range ix.p.Events[:lim] {
+		if countsAsWire(e) && ix.wirePos[e] >= pLo && ix.wirePos[e] < pHi {
+			if n, isC := eventBytes(e); isC {
+				bytes += n // (atoms without a constant size count as zero: bytes is a lower bound)
+			}
+		}
+	}
+	ok = true
+	return
+}
+
+// cutOf: v is (a buf.Len() observation) + constant; the boundary it denotes.
+func (ix *pathIndex) cutOf(v *Val) (pos int, m *Event, ok bool) {
+	if v == nil {
+		return 0, nil, false
+	}
+	aff := affOf(stripIntConv(v))
+	if aff.Top || len(aff.Term) != 1 {
+		return 0, nil, false
+	}
+	for k, c := range aff.Term {
+		if c != 1 {
+			return 0, nil, false
+		}
+		m = ix.marker(aff.Sym[k])
+	}
+	if m == nil || m.Kind != EvLen {
+		return 0, nil, false
+	}
+	pos, ok = ix.cut(m, aff.C)
+	return pos, m, ok
+}
+
 func (ix *pathIndex) marker(v *Val) *Event {
 	if v == nil || (v.Op != "buflen" && v.Op != "bufbytes") {
 		return nil
@@ -161,17 +327,22 @@ func (a *Analysis) checkLenPath(rep *Report, ct *CodecType, pl *PathLayout) {
 	dst := stripCT(patch.Dst)
 	okRange := false
 	msg := "patched range " + patch.Dst.Pretty()
-	if dst.Op == "slice" && dst.Args[1] != nil && dst.Args[2] != nil && stripCT(dst.Args[0]).Op == "bufbytes" {
+	if dst.Op == "slice" && dst.Args[1] != nil && stripCT(dst.Args[0]).Op == "bufbytes" {
+		// PutUintN writes the first N bytes of the slice: the upper bound only has to leave room for them
 		lo, hi := dst.Args[1], dst.Args[2]
-		mLo := ix.marker(lo)
+		pLo, mLo, okLo := ix.cutOf(lo)
+		pHi, mHi, okHi := ix.cutOf(hi)
+		if hi == nil {
+			pHi, mHi, okHi = ix.wirePos[patch], mLo, okLo
+		}
 		w, _ := fixedSize(ph.IntType)
 		pw, _ := fixedSize(patch.IntType)
 		bb := ix.marker(stripCT(dst.Args[0]))
 		switch {
-		case mLo == nil || mLo.Kind != EvLen || ix.wirePos[mLo] != k:
-			msg += ": lower bound is not the buf.Len() observed immediately before the placeholder"
-		case !affOf(hi).Equal(affOf(lo).Add(affConst(w), 1)):
-			msg += fmt.Sprintf(": upper bound is not lower bound + %d", w)
+		case !okLo || pLo != k:
+			msg += ": lower bound is not the buffer position at which the placeholder starts (a buf.Len() observation plus the constant sizes of the writes in between)"
+		case !(okHi && pHi >= k+1 && isRootBuf(mHi.Buf)) && !(hi != nil && affOf(hi).Equal(affOf(lo).Add(affConst(w), 1))):
+			msg += fmt.Sprintf(": upper bound is neither lower bound + %d nor a position at or after the end of the placeholder", w)
 		case pw != w:
 			msg += fmt.Sprintf(": patch writes %d bytes over a %d-byte placeholder", pw, w)
 		case bb == nil || !isRootBuf(bb.Buf) || !isRootBuf(ph.Buf) || !isRootBuf(mLo.Buf):
@@ -183,7 +354,11 @@ func (a *Analysis) checkLenPath(rep *Report, ct *CodecType, pl *PathLayout) {
 		}
 	}
 	rep.Ob("L2-patch-range", key, okRange, ppos, msg)
-	rep.Ob("L2-patch-type-order", key, patch.Order == ph.Order && sameIntShape(patch.IntType, ph.IntType), ppos,
+	zeroPh := false
+	if z, isC := stripCT(ph.Src).Int64(); isC && z == 0 && ph.Order == "zero" {
+		zeroPh = true // a run of zero bytes reserved for the field: no byte order of its own
+	}
+	rep.Ob("L2-patch-type-order", key, (patch.Order == ph.Order || zeroPh) && sameIntShape(patch.IntType, ph.IntType), ppos,
 		fmt.Sprintf("placeholder is %s/%s but the patch writes %s/%s", typeStr(ph.IntType), ph.Order, typeStr(patch.IntType), patch.Order))
 	// L1
 	first, last := bodySpan(pl.Layout, li)
@@ -196,7 +371,7 @@ func (a *Analysis) checkLenPath(rep *Report, ct *CodecType, pl *PathLayout) {
 	var mS, mE *Event
 	okVal := false
 	vmsg := "patched value " + patch.Src.Pretty() + " is not the difference of two buf.Len() observations"
-	if !aff.Top && aff.C == 0 && len(aff.Term) == 2 {
+	if !aff.Top && len(aff.Term) == 2 {
 		for kk, c := range aff.Term {
 			m := ix.marker(aff.Sym[kk])
 			if m == nil || m.Kind != EvLen {
@@ -210,11 +385,21 @@ func (a *Analysis) checkLenPath(rep *Report, ct *CodecType, pl *PathLayout) {
 			}
 		}
 		if mS != nil && mE != nil {
+			// (mE + c1) - (mS + c2): only c1 - c2 is known; it is attributed to the start (end - (start + c)) and, failing
+			// that, to the end
+			pS, okS := ix.cut(mS, -aff.C)
+			pE, okE := ix.cut(mE, 0)
+			if !okS {
+				pS, okS = ix.cut(mS, 0)
+				pE, okE = ix.cut(mE, aff.C)
+			}
 			switch {
-			case ix.wirePos[mS] != k+1:
-				vmsg = fmt.Sprintf("the body is measured from wire position %d, but it starts at %d (right after the length placeholder)", ix.wirePos[mS], k+1)
-			case ix.wirePos[mE] != k+1+nb:
-				vmsg = fmt.Sprintf("the body is measured up to wire position %d, but its last atom ends at %d", ix.wirePos[mE], k+1+nb)
+			case !okS || !okE:
+				vmsg = "patched value " + patch.Src.Pretty() + " is not the distance between two boundaries of written atoms"
+			case pS != k+1:
+				vmsg = fmt.Sprintf("the body is measured from wire position %d, but it starts at %d (right after the length placeholder)", pS, k+1)
+			case pE != k+1+nb:
+				vmsg = fmt.Sprintf("the body is measured up to wire position %d, but its last atom ends at %d", pE, k+1+nb)
 			case !isRootBuf(mS.Buf) || !isRootBuf(mE.Buf):
 				vmsg = "length observed on a different buffer"
 			default:
@@ -401,7 +586,7 @@ func (a *Analysis) checkSumPath(rep *Report, ct *CodecType, pl *PathLayout) {
 		if tpos != ix.nwire-1 {
 			okOrder, omsg = false, "the checksum trailer is not the last thing written"
 		}
-		trailerOK = stripCT(trailer.Ev[0].Src).Key() == (&Val{Op: "calc", ID: calc.ID, Args: []*Val{calc.Recv, calc.Args[0]}}).Key()
+		trailerOK = stripSameWidth(trailer.Ev[0].Src).Key() == (&Val{Op: "calc", ID: calc.ID, Args: []*Val{calc.Recv, calc.Args[0]}}).Key()
 	} else {
 		okOrder, omsg = false, "no trailer is written from a computed checksum"
 	}
@@ -468,6 +653,9 @@ func (a *Analysis) CheckC06(rep *Report) {
 			continue
 		}
 		for pi, p := range r.EncPaths {
+			if name, miss := a.registryMiss(p); miss && a.RegistryStartup && a.U.ServiceByName(name) != nil {
+				continue // the not-found arm of a registered service: infeasible under the start-up assumption (checked in C05)
+			}
 			npaths++
 			ix := indexPath(p)
 			key := fmt.Sprintf("%s.Encode", ct.Name)
@@ -476,6 +664,10 @@ func (a *Analysis) CheckC06(rep *Report) {
 				nev++
 				epos := a.P.Pos(e.Pos)
 				switch e.Kind {
+				case EvWriteInt, EvWriteBytes, EvLen, EvBytes:
+					if e.Buf != nil {
+						rep.Ob("A1-append-only", key+":"+e.Kind.String(), true, "", "")
+					}
 				case EvReadInt, EvReadBytes:
 					rep.Ob("A1-append-only", key+":"+e.Kind.String(), false, epos, "encoding consumes bytes from a buffer: "+e.String())
 				case EvBufOther:
@@ -488,9 +680,12 @@ func (a *Analysis) CheckC06(rep *Report) {
 					okp := false
 					dst := stripCT(e.Dst)
 					if depth == 0 && dst.Op == "slice" && dst.Args[1] != nil && stripCT(dst.Args[0]).Op == "bufbytes" {
-						if m := ix.marker(dst.Args[1]); m != nil && m.Kind == EvLen {
-							// at least the patched width must have been appended after the marker
-							okp = ix.wirePos[e] > ix.wirePos[m]
+						// the patched window lies between two boundaries of atoms this call has already appended, and is as
+						// wide as the number written
+						bb := ix.marker(stripCT(dst.Args[0]))
+						if _, _, n, m, okw := ix.window(dst.Args[1], dst.Args[2], e); okw && bb != nil && isRootBuf(m.Buf) && sameBuf(bb.Buf, m.Buf) {
+							w, _ := fixedSize(e.IntType)
+							okp = n >= w
 						}
 					}
 					rep.Ob("A1-patch-inside-own-bytes", key+":patch", okp, epos, "in-place write "+e.Dst.Pretty()+" is not provably inside the bytes appended by this call")
@@ -526,9 +721,8 @@ func (a *Analysis) CheckC06(rep *Report) {
 					}
 					switch e.Kind {
 					case EvWriteInt, EvWriteBytes, EvPatch, EvStore:
-						if bad := markerDependence(v); bad != "" {
-							rep.Ob("A2-context-free", key+":"+e.Kind.String(), false, epos, "value "+v.Pretty()+" depends on the buffer's prior state: "+bad)
-						}
+						bad := markerDependence(v)
+						rep.Ob("A2-context-free", key+":"+e.Kind.String(), bad == "", epos, "value "+v.Pretty()+" depends on the buffer's prior state: "+bad)
 					}
 				}
 				if e.Kind == EvCalc {
@@ -553,6 +747,10 @@ func (a *Analysis) CheckC06(rep *Report) {
 				}
 				k3 := fmt.Sprintf("%s.%s", key, fname)
 				src := stripIface(st.Src)
+				if i2, ok := recvField(src); ok && i2 == idx {
+					rep.Ob("A3-stores-only-computed-or-materialised", k3, true, "", "") // p.X = p.X: no change
+					continue
+				}
 				computed := src.Op == "calc" || stripIntConv(src).Contains(func(x *Val) bool { return x.Op == "buflen" })
 				materialised := false
 				if src.Op == "dyncall" || src.Op == "alloc" {
@@ -607,6 +805,10 @@ func markerDependence(v *Val) string {
 		}
 		if x.Op == "bufbytes" || x.Op == "bufnext" {
 			bad = "content of " + x.Pretty()
+			return
+		}
+		if x.Op == "availbuf" {
+			bad = "the buffer's spare capacity (whatever earlier use left there): " + x.Pretty()
 			return
 		}
 		if x.Op == "calc" {
